@@ -31,8 +31,11 @@ CHECKS = {
              'decomposition); any left inverse of the matrix returns x; the block-wise strategy is the exact resolvent when its two '
              'inverted blocks are left inverses of I - GH and I - HG; the repaired cumulative-sum H agrees with the dense H on an '
              'uneven column where the pre-repair code provably did not (exact rational witnesses). Dense = cumulative-sum '
-             'geopotential for every level set comes from C13. The general-n theorem dense H = cumulative-sum H is not yet proved '
-             '(partial; covered by correspondence and probes). Every model operation is compared with the real code (float64, 1e-9) '
+             'geopotential for every level set comes from C13. Dense H = cumulative-sum H is proved for every layer count, every level '
+             'set without a zero thickness, every reference profile and column (and shown false with a zero thickness); the pre-repair '
+             'form is proved correct exactly for equidistant layers; hence the resolvent identity holds with the cumulative-sum '
+             'products for split / stacked / block-wise; also the right-inverse direction, linearity of implicit_terms and the '
+             'time-reversed solve. Every model operation is compared with the real code (float64, 1e-9) '
              'on random uneven level sets; the resolvent identity is also evaluated on the real code for every method pair.',
         note=TB + 'Modelled, not verified: numpy.linalg.inv (contract |inv(M)M - I| <= 1e-9 + 1e-12 cond(M) checked per run), jnp.einsum, XLA.',
         design='6/C03'),
